@@ -161,6 +161,17 @@ CHECKS = {
              'universe; the real checker must report exactly the predicted path sets, only in run: / github-script script:.',
         note='vectors with a semantic error are not applicable (~10 %); dynamic property names outside the universe; the '
              'documented set is the 20 leaf paths of the pinned table'),
+    'C06': dict(
+        category='model_checking', design_ref='5 (C06), 3.1 ExprTypes/ExprSema, A.6',
+        technique='TLA+ specs ExprTypes.tla/ExprSema.tla (transcription of the type checker as Check(e, env) and the '
+                  'single-step loosening relation) checked by TLC for any-monotonicity; every generated triple '
+                  '(expression, env, loosened env) executed on the real ExprSemanticsChecker through the exported Update* '
+                  'methods and on rendered workflows through Linter.Lint; records validated by TLC (ExprSemaTrace.tla)',
+        text='TLC proves on the model that no single-step loosening (a type -> any, closed -> open object) turns an accepted '
+             'expression into a rejected one (also at template positions); the property itself is then judged on two REAL '
+             'outputs per triple (needs no model fidelity), and equality with the model is recorded as drift only.',
+        note='universe = structured families (access chains <= 3, one/two-level consumers, six contexts, fromJSON literal vs '
+             'expression), not all depth-3 expressions; property judged as acceptance, not error-set inclusion (see c06.py)'),
 }
 
 REASON_NOT_YET = 'check not built yet in this revision of /verif (planned, see DESIGN.md section 5); not claimed'
